@@ -6,6 +6,17 @@
 
 namespace mfuse
 {
+#ifdef MORFUSE_VERIF
+namespace verif
+{
+    /**
+     * When non-null, called when a request does not fit in what is left of a pre-sized arena
+     * (kind 0: PreAllocator::Alloc, kind 1: the emitter's code buffer).
+     * The bound is assert-only otherwise.
+     */
+    extern void (*arena_trap)(int kind, size_t need, size_t have);
+}
+#endif
 namespace MEM
 {
     class PreAllocator
